@@ -131,6 +131,17 @@ Theorem C14_extend_meaning : forall ops h c ms es ss um ue us w' r s,
   end.
 Proof. exact extend_meaning. Qed.
 
+(** filtered_context: a new unfrozen database whose meaning is the selected
+    categories of the source in the same order with rebuilt (or emptied)
+    dicts; it never raises — in particular not on auto-generated category
+    names (fixes/C14-filter-autogen). *)
+Theorem C14_filter_meaning : forall ops h keep excl which w' r s,
+  abs (run ops) h = Some s ->
+  db_step (run ops) (OFilter h keep excl which) = (w', r) ->
+  r = RNew (length (w_dbs (run ops))) /\
+  abs w' (length (w_dbs (run ops))) = Some (s_filter s keep excl which).
+Proof. exact filter_meaning. Qed.
+
 (** The auto-generated category name is always new (the counter loop of
     [_get_new_autogen_category] terminates within [length cats + 1] rounds). *)
 Theorem C14_autogen_name_fresh : forall cats n, ~ In (CAuto (fresh_auto cats n)) cats.
@@ -185,6 +196,13 @@ Example C14_frozen_refuses_nonvacuous :
   snd (db_step (run hist_derive) (OSetUnk 2 KS None)) = RRaise RuntimeError.
 Proof. vm_compute. split; [eexists; split; reflexivity | split; reflexivity]. Qed.
 
+Example C14_filter_meaning_nonvacuous :
+  (exists s, abs (run hist_derive) 2 = Some s) /\
+  snd (db_step (run hist_derive) (OFilter 2 [CAuto 0; cC] [] [KM])) = RNew 5 /\
+  run_query (fst (db_step (run hist_derive) (OFilter 2 [CAuto 0; cC] [] [KM]))) 5 QCats
+    = Some (ACats [CAuto 0; cC]).
+Proof. vm_compute. split; [eexists; reflexivity | split; reflexivity]. Qed.
+
 Example C14_add_meaning_nonvacuous :
   snd (db_step (run hist_F4) (OAdd 0 None [sp 110 4] [] [] (PBefore cC))) = ROk /\
   snd (db_step (run hist_F4) (OAdd 0 (Some cB) [] [] [] PAppend)) = RRaise ValueError /\
@@ -204,4 +222,5 @@ Print Assumptions C14_freeze_meaning.
 Print Assumptions C14_never_stuck.
 Print Assumptions C14_add_meaning.
 Print Assumptions C14_extend_meaning.
+Print Assumptions C14_filter_meaning.
 Print Assumptions C14_autogen_name_fresh.
